@@ -2286,6 +2286,11 @@ def preprocess_file(
             nsubs += 1
         return out_line + line[pos:], nsubs
 
+    def strip_pp_comment(text: str) -> str:
+        """A directive may end in a C comment: ``#ifdef X /* why */``, ``#if Y // why``"""
+        text = re.sub(r"/\*.*?\*/", " ", text)
+        return text.split("//")[0].split("/*")[0]
+
     def append_multiline_macro(def_value: str | tuple, line: str):
         if isinstance(def_value, tuple):
             def_args, def_value = def_value
@@ -2329,15 +2334,15 @@ def preprocess_file(
             if_start = False
             # Opening conditional statements
             if match.group(1).lower() == "if":
-                is_path = eval_pp_if(line[match.end(1) :], defs_tmp)
+                is_path = eval_pp_if(strip_pp_comment(line[match.end(1) :]), defs_tmp)
                 if_start = True
             elif match.group(1).lower() == "ifdef":
                 if_start = True
-                def_name = line[match.end(0) :].strip()
+                def_name = strip_pp_comment(line[match.end(0) :]).strip()
                 is_path = def_name in defs_tmp
             elif match.group(1).lower() == "ifndef":
                 if_start = True
-                def_name = line[match.end(0) :].strip()
+                def_name = strip_pp_comment(line[match.end(0) :]).strip()
                 is_path = not (def_name in defs_tmp)
             if if_start:
                 if is_path:
@@ -2365,7 +2370,7 @@ def preprocess_file(
                     exc_continue = True
                     if pp_stack[-1][0] < 0:
                         pp_stack[-1][0] = i + 1
-                elif eval_pp_if(line[match.end(1) :], defs_tmp):
+                elif eval_pp_if(strip_pp_comment(line[match.end(1) :]), defs_tmp):
                     pp_stack[-1][1] = i + 1
                     pp_skips.append(pp_stack.pop())
                     pp_stack_group[-1][1] = True
